@@ -30,6 +30,7 @@ type Result struct {
 	Hash       uint64         // hash of the decoded case, for distinct counting
 	NonTrivial bool
 	Stats      map[string]int64
+	Abort      bool   // the process must be recycled after this case (a runaway goroutine of the untouched copy)
 	SchedHash  uint64 // hash of the schedule trace(s)
 	StateHash  []uint64
 }
@@ -137,6 +138,7 @@ type Failure struct {
 	MinFrom  int            `json:"min_from"`
 	MinEvals int            `json:"min_evals"`
 	Count    int64          `json:"count"`
+	Unstable bool           `json:"unstable,omitempty"` // found outside the deterministic core: not replay-verified
 }
 
 // WorkerReport is written by each worker process.
@@ -154,6 +156,7 @@ type WorkerReport struct {
 	Samples    []map[string]any `json:"samples"`
 	WallS      float64          `json:"wall_s"`
 	Done       bool             `json:"done"`
+	AbortAt    int64            `json:"abort_at"` // >=0: the worker stopped after this case and must be relaunched
 	NonTrivial int64            `json:"nontrivial"`
 }
 
